@@ -186,6 +186,45 @@ def _controlled_cases(ctx, corr):
             corr.oracle_fail(inp, "matrix differs", "block matrix", "controlled_gate is not 'U iff controls read the value'")
 
 
+def _controlled_class_cases(ctx, corr):
+    """the ControlledGate CLASS path (what a circuit holds): every control value incl. 0, 1-3 controls, compact matrix and
+    the circuit unitary against the bit-level meaning 'apply U iff the controls read the value'"""
+    from qutip_qip.operations.gateclass import ControlledGate, X, Z, RX, RY, S
+    from qutip_qip.circuit import QubitCircuit
+    rng = ctx.rng
+    targets_cls = [(X, None, "X"), (Z, None, "Z"), (S, None, "S"), (RX, 0.7, "RX"), (RY, -1.3, "RY")]
+    for nc in (1, 2, 3):
+        for cv in range(2 ** nc):
+            for cls, arg, nm in rng.sample(targets_cls, ctx.n(2, len(targets_cls))):
+                N = nc + 1 + rng.choice([0, 1])
+                qs = rng.sample(range(N), nc + 1)
+                inp = dict(kind="controlled_class", gate=nm, arg=arg, N=N, controls=qs[:nc], target=qs[nc], control_value=cv)
+                corr.count(("ctrlc", nc, cv, nm, tuple(qs)), nontrivial=True, sample=inp if rng.random() < 0.03 else None)
+                corr.tally(f"ControlledGate class nc={nc}")
+                U = Q.np_gate(nm, None if arg is None else [arg])
+                try:
+                    kw = dict(controls=list(qs[:nc]), targets=[qs[nc]], control_value=cv, target_gate=cls)
+                    if arg is not None:
+                        kw["arg_value"] = arg
+                    g = ControlledGate(**kw)
+                    compact = g.get_compact_qobj().full()
+                    qc = QubitCircuit(N)
+                    qc.add_gate(g)
+                    full = qc.compute_unitary().full()
+                except Exception as e:
+                    corr.oracle_fail(inp, repr(e), "matrix", "ControlledGate class path raised")
+                    continue
+                # compact: controls first (most significant), then the target
+                k = nc + 1
+                exp_c = np.eye(2 ** k, dtype=complex)
+                exp_c[2 * cv:2 * cv + 2, 2 * cv:2 * cv + 2] = U
+                exp_f = Q.embed(exp_c, list(qs), N)
+                if compact.shape != exp_c.shape or not np.allclose(compact, exp_c, atol=1e-9):
+                    corr.oracle_fail(inp, "compact matrix differs", "block matrix", "ControlledGate.get_compact_qobj is not 'U iff controls read the value'")
+                elif not np.allclose(full, exp_f, atol=1e-9):
+                    corr.oracle_fail(inp, "circuit unitary differs", "embedded block matrix", "circuit holding a ControlledGate is not 'U iff controls read the value'")
+
+
 def _controlled_model_cases(ctx, corr, disp):
     """tie controlled_gate to the model (Sym.ptctrl, the object of controlled_gate_spec): for 1-3 controls, every value,
     library single-qubit unitaries with symbolic parameters, compare the real matrix with the model table evaluated numerically"""
@@ -256,6 +295,7 @@ def correspond(ctx):
             corr.disagree(dict(gate="GLOBALPHASE", params=[th]), str(impl[0, 0]), str(Q.eval_poly(gp, [th])), "globalphase scalar")
     _controlled_cases(ctx, corr)
     _controlled_model_cases(ctx, corr, disp)
+    _controlled_class_cases(ctx, corr)
     corr.extra["translated"] = {k: (len(v) if isinstance(v, list) else v) for k, v in _gen.items() if k != "class_map"}
     return corr
 
@@ -279,6 +319,7 @@ def search(ctx, broken):
         for params in _samples(T(), Q.N_PARAMS.get(name, 0)):
             _check_case(c, name, inv_fn.get(name), params, tabs[:4])
     _controlled_cases(T(), c)
+    _controlled_class_cases(T(), c)
     return c.oracle_failures
 
 
